@@ -617,6 +617,10 @@ func runC19(e *env) error {
 	if err := runFuncAttach(e); err != nil {
 		return err
 	}
+	// the doc comments of CUSTOM FUNCTIONS selected by name or by pattern: their goverter:context lines belong to them
+	if err := runExtSel(e); err != nil {
+		return err
+	}
 	return nil
 }
 
